@@ -701,6 +701,13 @@ def class_layout(box, mycls, attr):
         if lay is not None:
             decl = [any(p['attr'] == attr + '_' + k and p.get('limit') for p in lay['params']) for k in ('min', 'max', 'limits')]
             own = any(h['attr'] == attr for h in lay['hooks'])
+            # the class body was made from this very spec (self-check of the harness, independent of the code under test:
+            # __init_subclass__ may copy accessibles into derived classes and attach the automatic check, it never removes)
+            for k, d in zip(('min', 'max', 'limits'), decl):
+                if d and not isinstance(b.__dict__.get(attr + '_' + k), Limit):
+                    raise RuntimeError('class %s was generated with %s_%s but does not hold it' % (b.__name__, attr, k))
+            if own and getattr(b.__dict__.get('check_' + attr), '_hook_id', None) is None:
+                raise RuntimeError('class %s was generated with check_%s but does not hold it' % (b.__name__, attr))
         else:
             # classes of frappy itself / feature mixins: their own bodies
             decl = [isinstance(b.__dict__.get(attr + '_' + k), Limit) for k in ('min', 'max', 'limits')]
@@ -2251,6 +2258,13 @@ def run(ctx):
                         res.samples.append({'req': st['req'], 'reply': st['obs']['reply'], 'calls': st['obs']['calls'],
                                             'emits': st['obs']['emits']})
                         break
+            # the hypothesis of the theorems (Node.WF), decided by the driver for this very node (wf_of_wfB)
+            if model.get('wf') is False:
+                res.count('node.NOT-well-formed(theorems do not speak about it)')
+                if len(res.notes) < 5:
+                    res.notes.append('generated node of case %s does not satisfy Node.WF' % case['seed'])
+            else:
+                res.count('node.well-formed(Node.WF decided in Lean)')
             if ctx.model_ok:
                 d = compare(model, rec)
                 if d is not None:
